@@ -37,6 +37,8 @@ META = {
 
 META['explanation'] += ' ' + "R1: explicit raises of undocumented exceptions on parse paths. R2: parser keys defined on every path before they are read. R6: multi-directive values whose absent directive defaults to None must accept None in the field's validator. R7: json.loads results are type-checked (isinstance dict, raising) before use as a mapping, and objects built from their members are built under a handler for TypeError / ValueError / OverflowError; json.loads is recorded as raising ValueError and RecursionError. R8: the class parse_parsable produces (after the field's converter) is accepted by the instance_of / deep_iterable validator of the receiving field, item types of vectors included. The flag conversion inside parse_numeric_flags is discharged by evaluating the function over every 1 and 2 byte wire word with a model flag class that leaves bits unowned. Library errors can be tied to one kind of argument (from_params: EC parameters only). Index risks honour enclosing len(x) > k bounds."
 META['explanation'] += ' ' + 'Library objects built from DER (from_der / load) decode lazily: any member other than the stored bytes read outside a ValueError handler is a risk; alternatives of parsers (try: parser = helper(...) except: parser = ParserBinary(...)) are followed; dateutil.parser.parse is recorded as raising decimal.InvalidOperation.'
+
+META['explanation'] += ' ' + 'R9: no function on the parse side reaches itself through calls (shared with C19.R8). R4 knows TypeError / AttributeError of the lazy ASN.1 decoder (external.json).'
 HERE = os.path.dirname(os.path.dirname(os.path.abspath(__file__)))
 
 
